@@ -11,12 +11,13 @@ VARIABLE st
 FlagSeq(i) == CASE i = 0 -> <<>> [] i = 1 -> <<45>> [] i = 2 -> <<48>> [] i = 3 -> <<43>> [] i = 4 -> <<32>> [] i = 5 -> <<35>>
                 [] i = 6 -> <<45, 48>> [] i = 7 -> <<43, 48>> [] i = 8 -> <<35, 32>> [] i = 9 -> <<45, 35>> [] i = 10 -> <<48, 35>>
                 [] i = 11 -> <<43, 45>> [] i = 12 -> <<43, 32>> [] i = 13 -> <<45, 43, 48, 35, 32>> [] i = 14 -> <<32, 48>>
+                [] i = 15 -> <<73>> [] i = 16 -> <<39>> [] i = 17 -> <<45, 73>>          \* glibc's I and ' (C09 scope only)
 RECURSIVE NumChars(_)
 NumChars(n) == IF n < 10 THEN <<48 + n>> ELSE Append(NumChars(n \div 10), 48 + Mod(n, 10))
 WidthSeq(w) == IF w = -1 THEN <<>> ELSE IF w = -2 THEN <<42>> ELSE NumChars(w)
 PrecSeq(p) == IF p = -1 THEN <<>> ELSE IF p = -2 THEN <<46, 42>> ELSE IF p = -3 THEN <<46>> ELSE <<46>> \o NumChars(p)
 LenSeq(s) == CASE s = "" -> <<>> [] s = "hh" -> <<104, 104>> [] s = "h" -> <<104>> [] s = "l" -> <<108>> [] s = "ll" -> <<108, 108>>
-               [] s = "j" -> <<106>> [] s = "z" -> <<122>> [] s = "t" -> <<116>> [] s = "L" -> <<76>>
+               [] s = "j" -> <<106>> [] s = "z" -> <<122>> [] s = "t" -> <<116>> [] s = "L" -> <<76>> [] s = "Z" -> <<90>> [] s = "q" -> <<113>>
 DirSeq(fi, w, p, ln, cv) == <<37>> \o FlagSeq(fi) \o WidthSeq(w) \o PrecSeq(p) \o LenSeq(ln) \o <<cv>>
 
 (* argument kinds: 1 int (limbs) 2 string (index) 3 double (index) 4 long double (index) 5 wide string (index) 6 n-pointer *)
@@ -84,9 +85,10 @@ ScanPre == << <<>>, <<37, 100>>, <<37, 37>>, <<97>>, <<37, 42, 100>>, <<37, 51, 
 ScanPreInp == << <<>>, <<49, 50>>, <<37>>, <<97>>, <<55>>, <<120, 121, 122>>, <<37, 37>>, <<97, 98>>, <<113>>, <<93>>, <<110>>, <<113>>, <<113>> >>
 ScanPreArgs == << <<>>, <<7>>, <<>>, <<>>, <<>>, <<7>>, <<>>, <<7>>, <<7>>, <<7>>, <<7>>, <<>>, <<7>> >>
 ScanN == << <<37, 110>>, <<37, 108, 110>>, <<37, 104, 104, 110>>, <<37, 108, 108, 110>>, <<37, 53, 110>>, <<37, 42, 110>>, <<37, 37, 110>>, <<110>>, <<37, 104, 110>>, <<37, 106, 110>>,
-           <<37, 49, 36, 110>>, <<37, 49, 36, 108, 110>> >>      \* the last two: "%1$n" "%1$ln"
-ScanNHas == <<TRUE, TRUE, TRUE, TRUE, TRUE, FALSE, FALSE, FALSE, TRUE, TRUE, TRUE, TRUE>>
-ScanNInp == << <<>>, <<>>, <<>>, <<>>, <<>>, <<>>, <<37, 110>>, <<110>>, <<>>, <<>>, <<>>, <<>> >>
+           <<37, 49, 36, 110>>, <<37, 49, 36, 108, 110>>,        \* "%1$n" "%1$ln"
+           <<37, 73, 110>>, <<37, 109, 110>>, <<37, 39, 110>>, <<37, 109, 108, 110>> >>      \* glibc: "%In" "%mn" "%'n" "%mln"
+ScanNHas == <<TRUE, TRUE, TRUE, TRUE, TRUE, FALSE, FALSE, FALSE, TRUE, TRUE, TRUE, TRUE, TRUE, TRUE, TRUE, TRUE>>
+ScanNInp == << <<>>, <<>>, <<>>, <<>>, <<>>, <<>>, <<37, 110>>, <<110>>, <<>>, <<>>, <<>>, <<>>, <<>>, <<>>, <<>>, <<>> >>
 ScanPost == << <<>>, <<32, 37, 100>> >>
 NextScan ==
   /\ st.fn = "init" /\ st.cv = 110 /\ st.fi = 0 /\ st.w = -1
